@@ -64,6 +64,7 @@ var (
 		"either step command or step call must be specified if executor is nil",
 	)
 	errStepCommandIsEmpty             = errors.New("step command is empty")
+	errEmptyListEntry                 = errors.New("empty entry in steps, functions or preconditions")
 	errStepCommandMustBeArrayOrString = errors.New(
 		"step command must be an array of strings or a string",
 	)
@@ -746,6 +747,9 @@ func buildConfigEnv(vars map[string]string) []string {
 func buildConditions(cond []*conditionDef) []Condition {
 	var ret []Condition
 	for _, v := range cond {
+		if v == nil {
+			continue
+		}
 		ret = append(ret, Condition{
 			Condition: v.Condition,
 			Expected:  v.Expected,
